@@ -102,8 +102,8 @@ func pureVal(e *N, sc *Scope) (interface{}, bool) {
 
 // strNumEqual decides equality of a string and a number where the C06 statement decides it and the
 // spelling leaves no room for readings: "a string and a number are equal exactly when the string is a
-// decimal numeral denoting that number". Decided here: strings without any digit (never a numeral:
-// not equal) and plain numerals - an optional minus sign, 1-15 digits without a superfluous leading
+// decimal numeral denoting that number". Decided here: strings without any digit or with a character
+// that no notation of numbers uses (never a numeral: not equal) and plain numerals - an optional minus sign, 1-15 digits without a superfluous leading
 // zero, optionally a point and 1-6 more digits. Every other spelling (exponents, a plus sign, leading
 // zeros, blanks, a bare point) stays undecided: ok is false.
 func strNumEqual(a, b interface{}) (eq, ok bool) {
@@ -133,6 +133,12 @@ func strNumEqual(a, b interface{}) (eq, ok bool) {
 	}
 	if !strings.ContainsAny(s, "0123456789") {
 		return false, true
+	}
+	for _, r := range s {
+		if !strings.ContainsRune("0123456789+-._eExXpPoObBaAcCdDfF \t\r\n", r) {
+			// a character no spelling of a number has, in any notation
+			return false, true
+		}
 	}
 	t := strings.TrimPrefix(s, "-")
 	whole, frac, hasPoint := strings.Cut(t, ".")
